@@ -13,10 +13,14 @@ Import ListNotations.
 Open Scope Q_scope.
 
 (* the report shows account a as itself: no mapping rule shortens it or anything else onto it, no
-   remap swaps it (in particular: no --mapping and no --remap at all) *)
+   remap swaps it (in particular: no --mapping and no --remap at all); other accounts may be
+   shortened, swapped or hidden as long as they do not land on a *)
 Definition shows_account (cfg : balance_cfg) (a : account) : Prop :=
   forall b, account_ok b = true ->
-  exists b', shorten (bc_mapping cfg) (remap (bc_remap cfg) b) = ShAcc b' /\ acc_eqb b' a = acc_eqb b a.
+  match shorten (bc_mapping cfg) (remap (bc_remap cfg) b) with
+  | ShAcc b' => acc_eqb b' a = acc_eqb b a
+  | _ => acc_eqb b a = false
+  end.
 
 (* the value stored for account a and commodity c, summed over the columns up to col: the number
    a row shows under col when --diff is off (Properties/C02.v C02_row_cumulative), before the
